@@ -1509,4 +1509,22 @@ example :
 theorem sibling_member_invisible (copied : List (String × String)) (c : Case) (ops : List Op) :
     runCase copied { c with first := ops } = runCase copied c := rfl
 
+/-- `shift` with no positional parameter left (an error of the special built-in; was a generator exclusion): the shell
+    that runs it ends with status 1 after its OWN exit trap, its environment untouched — inside a subshell the starter
+    sees the status only (`subshell_isolated_nested`). -/
+theorem shift_without_parameters_halts (sh : Shell) (hl : sh.halted = none) (he : sh.env.variables.params = []) :
+    (applyOp sh .shift).halted = some 1 ∧ (applyOp sh .shift).env = sh.env
+    ∧ (applyOp sh .shift).events = sh.events ++ (match trapCommandOf sh.env 0 with
+        | some k => [s!"T{k}"]
+        | none => []) := by
+  unfold applyOp
+  simp [hl, applyOpCore, he, exitShell]
+  cases trapCommandOf sh.env 0 <;> rfl
+
+/-- non-vacuity, and the other branch: with a parameter left `shift` drops it and the shell lives on -/
+example :
+    (applyOp { env := initialEnv } .shift).halted = some 1
+    ∧ (applyOp (applyOp { env := initialEnv } (.args ["1"])) .shift).halted = none
+    ∧ (applyOp (applyOp { env := initialEnv } (.args ["1", "two"])) .shift).env.variables.params = ["two"] := by decide
+
 end YashModel.Fork
